@@ -35,26 +35,21 @@ Proof.
 Qed.
 
 (* ---------- the plan shapes of the model ---------- *)
-(* replace: add-before-remove holds for the joint-consensus plan and for the plain plan when old and
-   new peer have the same kind (voter/voter, learner/learner) *)
-Lemma plan_replace_balanced joint r old new lrn id pl po :
-  plan_of joint r (AReplace old new lrn) id = Some pl ->
-  peer_on (peers r) old = Some po ->
-  (joint = true \/ is_learner po = lrn) ->
-  balanced_prefixes pl = true.
+(* replace: the new peer is added before the old one is removed, with and without joint consensus, whatever the kinds of
+   the two peers *)
+Lemma plan_replace_balanced joint r old new lrn id pl :
+  plan_of joint r (AReplace old new lrn) id = Some pl -> balanced_prefixes pl = true.
 Proof.
-  intros H Hp Hc. cbn in H. rewrite Hp in H. destruct joint.
+  intros H. cbn in H. destruct (peer_on (peers r) old) as [po|]; [|discriminate]. destruct joint.
   - inversion H; reflexivity.
-  - destruct Hc as [Hc|Hc]; [discriminate|]. rewrite Hc in H.
-    rewrite Bool.eqb_reflx in H. destruct lrn; inversion H; reflexivity.
+  - destruct lrn; inversion H; reflexivity.
 Qed.
 
-(* ... and fails otherwise: without joint consensus a learner replaced by a voter (or a voter by a learner)
-   is removed first *)
-Lemma plan_replace_unbalanced_witness :
+(* regression: the old witness (no joint consensus, learner on store 2 replaced by a voter on store 9) is add-first now *)
+Lemma plan_replace_mixed_regression :
   let r := Region [Peer 1 1 Voter; Peer 2 2 Learner; Peer 3 3 Voter] (Some (Peer 1 1 Voter)) [] [] in
-  exists pl, plan_of false r (AReplace 2 9 false) 100 = Some pl /\ balanced_prefixes pl = false.
-Proof. cbn. eexists; split; reflexivity. Qed.
+  plan_of false r (AReplace 2 9 false) 100 = Some [AddLearnerS 9 100; PromoteLearnerS 9 100; RemovePeerS 2].
+Proof. reflexivity. Qed.
 
 Lemma plan_add_balanced joint r t lrn id pl :
   plan_of joint r (AAdd t lrn) id = Some pl -> balanced_prefixes pl = true.
